@@ -187,11 +187,15 @@ namespace foonathan
                     if (!mem)
                     {
                         // reserve more then the default capacity if that didn't work either
+                        // the array occupies whole nodes of the pool, so reserve a multiple of its node size
+                        auto no_nodes = count * node_size / pool.node_size()
+                                        + (count * node_size % pool.node_size() != 0u ? 1u : 0u);
+                        auto array_size = no_nodes * pool.node_size();
                         detail::check_allocation_size<bad_array_size>(
-                            count * node_size,
-                            [&] { return next_capacity() - pool.alignment() + 1; }, info());
+                            array_size, [&] { return next_capacity() - pool.alignment() + 1; },
+                            info());
 
-                        block = reserve_memory(pool, count * node_size);
+                        block = reserve_memory(pool, array_size);
                         pool.insert(block.memory, block.size);
 
                         mem = pool.allocate(count * node_size);
